@@ -384,7 +384,7 @@ def parse_terminator(line):
 # function bodies
 
 class Function:
-    __slots__ = ('name', 'header', 'params', 'ret_ty', 'locals', 'blocks', 'nargs', 'debug', 'text')
+    __slots__ = ('name', 'header', 'params', 'ret_ty', 'locals', 'blocks', 'nargs', 'debug', 'text', 'extra_caps')
 
     def __repr__(self):
         return '<fn %s>' % self.name
